@@ -375,12 +375,83 @@ def e2e_case(root, part, rng):
         shutil.rmtree(d, ignore_errors=True)
 
 
+def journal_case(root, part, rng):
+    """several executors report into one journal the way the daemon sets it up: each gets its own descriptor of the file,
+    positioned at the end when it is started; they finish in another order than they were started"""
+    import subprocess
+    from ..common import SAN_ENV
+    wd = tempfile.mkdtemp(prefix="c13j-")
+    try:
+        job = build.exe(root, "asan", "h_job")
+        jf = os.path.join(wd, "echsj.ics")
+        open(jf, "w").write("" if rng.random() < 0.5 else "BEGIN:VTODO\nUID:old@verif\nSUMMARY:earlier entry\nEND:VTODO\n")
+        n = rng.choice([2, 3, 4])
+        sleeps = rng.sample([5, 120, 250, 400, 60], n)
+        codes = [rng.choice([0, 1, 3, 42]) for _ in range(n)]
+        env = dict(os.environ)
+        env.update(SAN_ENV)
+        env["HX_SENDMAIL"] = build.exe(root, "asan", "h_sendmail")
+        procs = []
+        part.evaluations += 1
+        for i in range(n):
+            req = ("BEGIN:VCALENDAR\nVERSION:2.0\nBEGIN:VTODO\nUID:j%d@verif\nSUMMARY:exec %s s:%d x:%d\nX-ECHS-SETUID:0\nX-ECHS-SETGID:0\n"
+                   "X-ECHS-SHELL:/bin/sh\nLOCATION:%s\nEND:VTODO\nEND:VCALENDAR\n" % (i, job, sleeps[i], codes[i], wd))
+            fd = os.open(jf, os.O_WRONLY | os.O_CREAT, 0o600)
+            os.lseek(fd, 0, os.SEEK_END)
+            p = subprocess.Popen([build.exe(root, "asan", "h_echsx"), "-v"], stdin=subprocess.PIPE, stdout=fd, stderr=subprocess.PIPE, env=env, cwd=wd)
+            os.close(fd)
+            procs.append((p, req))
+        for p, req in procs:
+            p.stdin.write(req.encode())
+            p.stdin.close()
+        errs = []
+        for p, req in procs:
+            try:
+                p.wait(timeout=60)
+                errs.append(p.stderr.read().decode("latin1"))
+            except subprocess.TimeoutExpired:
+                p.kill()
+                errs.append("TIMEOUT")
+        text = open(jf).read()
+        fails = []
+        if any("AddressSanitizer" in e or "runtime error" in e or e == "TIMEOUT" for e in errs):
+            fails.append(("executor-crash", "echsx dies or hangs while reporting: %s" % [e[-200:] for e in errs if e][:1]))
+        blocks = re.findall(r"BEGIN:VTODO\n(.*?)END:VTODO\n", text, re.S)
+        rest = re.sub(r"BEGIN:VTODO\n.*?END:VTODO\n", "", text, flags=re.S)
+        if rest.strip() or text.count("BEGIN:VTODO") != text.count("END:VTODO"):
+            fails.append(("journal-garbled", "the journal holds text outside complete entries (%d BEGIN, %d END, %d stray bytes)"
+                          % (text.count("BEGIN:VTODO"), text.count("END:VTODO"), len(rest.strip()))))
+        got = {}
+        for b in blocks:
+            u = re.search(r"^UID:(.*)$", b, re.M)
+            xs = re.search(r"^X-EXIT-STATUS:(.*)$", b, re.M)
+            got.setdefault(u.group(1) if u else None, []).append(xs.group(1) if xs else None)
+        for i in range(n):
+            g = got.get("j%d@verif" % i, [])
+            if len(g) != 1:
+                fails.append(("journal-entry-lost" if not g else "journal-entry-duplicated",
+                              "run j%d (slept %d ms, %d runs in flight): %d journal entries" % (i, sleeps[i], n, len(g))))
+            elif g[0] != str(codes[i]):
+                fails.append(("journal-exit-status", "run j%d exited with %d, journal says %s" % (i, codes[i], g[0])))
+        if "old@verif" not in got and "earlier entry" in open(jf).read() + "x" and False:
+            pass
+        part.count("concurrent_journal_runs", n)
+        part.nontrivial.add("journal n=%d order=%s" % (n, "".join(str(sorted(sleeps).index(s)) for s in sleeps)))
+        for k, d in fails:
+            part.violation(k, {"input": [r for _, r in procs], "journal": text[-2000:], "detail": d,
+                               "summary": "%s (%d executors reporting into one journal)" % (d, n)})
+    finally:
+        shutil.rmtree(wd, ignore_errors=True)
+
+
 def worker(args):
     root, seed, tier, wid, nw, n = args
     part = Part()
     rng = rng_for(seed, PROP, wid)
     for i in range(n):
-        if i % 8 == 7:
+        if i % 8 == 3:
+            journal_case(root, part, rng)
+        elif i % 8 == 7:
             e2e_case(root, part, rng)
         else:
             run_case(root, part, rng)
@@ -408,6 +479,9 @@ def main(tier):
     run.cov["rule"] += ("; every 8th case is end to end: a file with commands/file names containing backslashes, commas, semicolons, "
                         "quotes and line breaks goes through echsq -n add and the echsd harness, and the shell started by echsx must be "
                         "given exactly the user's command and create exactly the named output file")
+    run.cov["rule"] += ("; another 8th runs 2-4 executors at once that report into one journal file through separate descriptors positioned "
+                        "at the end when they start (as the daemon does) and finish in a different order: every run's entry must be "
+                        "there once, complete and with its own exit status")
     run.assumptions = ["the mailer is replaced by harness/h_sendmail through a link-time posix_spawn wrapper; setuid/setgid target is 0 (the sandbox user)",
                        "interleaving between the two streams in a shared destination is not judged (only each stream's own order)"]
     return run.finish(min_eval=total // 2, min_nontrivial=40)
